@@ -675,7 +675,7 @@ class TensorDiagram:
         self._nodes.append(node)
         self._node_positions.append(self._index_count)
         self._index_count += node.rank
-        ind = (list(node._covariant_indices), list(node._contravariant_indices))
+        ind = (sorted(node._covariant_indices), sorted(node._contravariant_indices))
         self._unused_indices.append(ind)
         return ind
 
